@@ -2445,24 +2445,55 @@ void m_observed()
     ED e = fcppt::monad::return_<eit<E, fcppt::unit>>(D{x});
     observe("monad::return_<either>", enc(e) == md::succ(x), "x=" + std::to_string(x));
   }
+  // chain(m, l_1, ..., l_n) is documented as bind(...bind(bind(m, l_1), l_2)..., l_n): judged, with continuations of ONE
+  // type (D -> optional<D>) so that the order of the steps is a matter of values and calls (it always held on the pinned
+  // tree; steps that change the type would fix the order at compile time)
   for (long t1 = 0; t1 < 64; ++t1)
     for (long t2 = 0; t2 < 64; t2 += 3)
       for (int o = 0; o < 4; ++o)
       {
         vf::add_evals(1);
         set_ops(t1, t2, o);
-        tfn<opt<A>, D> f{1, t1};
-        tfn<opt<B>, A> g{2, t2};
+        tfn<opt<D>, D> f{1, t1};
+        tfn<opt<D>, D> g{2, t2};
         lib_log().clear();
-        opt<B> r = fcppt::monad::chain(dec<OD>(o), f, g);
+        opt<D> r = fcppt::monad::chain(dec<OD>(o), f, g);
         // bind(bind(o, f), g)
         int mid = md::present(o) ? digit(t1, md::value(o), 4) : md::none;
         int want = md::present(mid) ? digit(t2, md::value(mid), 4) : md::none;
-        std::size_t ncalls = (md::present(o) ? 1U : 0U) + (md::present(mid) ? 1U : 0U);
-        observe("monad::chain<optional>", enc(r) == want && lib_log().size() == ncalls,
-                "f=" + std::to_string(t1) + " g=" + std::to_string(t2) + " o=" + std::to_string(o) +
-                    " got=" + std::to_string(enc(r)) + " want=" + std::to_string(want));
+        std::vector<int> want_roles;
+        if (md::present(o))
+          want_roles.push_back(1);
+        if (md::present(mid))
+          want_roles.push_back(2);
+        std::vector<int> got_roles;
+        for (call const &c : lib_log())
+          got_roles.push_back(c.role);
+        VF_COUNT("monad::chain/judged");
+        if (enc(r) != want)
+          vf::violation("monad::chain<optional>/value", "mismatch",
+                        "f=" + std::to_string(t1) + " g=" + std::to_string(t2) + " o=" + std::to_string(o) + " got=" + std::to_string(enc(r)) + " want=" + std::to_string(want) + " (bind(bind(o, f), g))");
+        else if (got_roles != want_roles)
+          vf::violation("monad::chain<optional>/calls", "mismatch", "f=" + std::to_string(t1) + " g=" + std::to_string(t2) + " o=" + std::to_string(o) + " calls=" + show_vec(got_roles));
       }
+  // three steps on either: the failure reported is the FIRST one met in the documented order
+  for (long t = 0; t < 216; t += 5)
+    for (int e = 0; e < 6; ++e)
+    {
+      vf::add_evals(1);
+      set_ops(t, e);
+      tfn<eit<E, D>, D> f{1, t}, g{2, (t * 7 + 3) % 216}, h{3, (t * 11 + 5) % 216};
+      lib_log().clear();
+      eit<E, D> r = fcppt::monad::chain(dec<ED>(e), f, g, h);
+      int cur = e;
+      for (tfn<eit<E, D>, D> const *step : {&f, &g, &h})
+        if (md::ok(cur))
+          cur = digit(step->table, md::sval(cur), 6);
+      if (!md::ok(e))
+        cur = md::fail(md::fval(e));
+      if (enc(r) != cur)
+        vf::violation("monad::chain<either>/value", "mismatch", "t=" + std::to_string(t) + " e=" + std::to_string(e) + " got=" + std::to_string(enc(r)) + " want=" + std::to_string(cur));
+    }
   for (long t = 0; t < 216; ++t)
     for (int e = 0; e < 6; ++e)
     {
